@@ -253,6 +253,16 @@ def run_compute(case, **kw):
         },
         simulation=sim,
     )
+    if case.get("via_toml"):
+        # the same configuration written to a TOML file and loaded back (how a user normally gets one)
+        from nuspacesim.config import config_from_toml, create_toml
+
+        d_ = tempfile.mkdtemp(prefix="nssverif_cfg_")
+        try:
+            create_toml(os.path.join(d_, "c.toml"), conf)
+            conf = config_from_toml(os.path.join(d_, "c.toml"))
+        finally:
+            shutil.rmtree(d_, ignore_errors=True)
     for path, value in case.get("tweaks", []):  # further configuration fields, by path
         obj = conf
         for name in path[:-1]:
